@@ -223,10 +223,26 @@ theorem meetFallback_ok (rf : Nat) {T : Table} {a b never : Nat} (ha : FO T a) (
         subst ho
         exact checkRel_any_bad rf [] [] a b asm' hc ha hb [] [] v hwf hboth
 
-theorem meetTuple_ok {rec : Table → Nat → Nat → TRes} (hrec : RecMeet rec) {T : Table}
+/-- positionwise related value fields force equal labels -/
+theorem labelsDiffer_false_of_rel {P Q : Nat → V → Prop} :
+    ∀ {l1 l2 : List (Option Name × Nat)} {qs : List (Option Name × V)},
+      FieldsRel P l1 qs → FieldsRel Q l2 qs → labelsDiffer l1 l2 = false := by
+  intro l1 l2 qs h1
+  induction h1 generalizing l2 with
+  | nil => intro h2; cases h2; rfl
+  | cons ha _ _ ih =>
+    intro h2
+    cases h2 with
+    | cons hc _ he =>
+      have := ih he
+      simp only [labelsDiffer, List.zip_cons_cons, List.any_cons, Bool.or_eq_false_iff,
+        decide_eq_false_iff_not, ne_eq, Decidable.not_not] at this ⊢
+      exact ⟨ha.trans hc.symm, this⟩
+
+theorem meetTuple_ok (vr : Variant) {rec : Table → Nat → Nat → TRes} (hrec : RecMeet rec) {T : Table}
     {a b never id1 id2 : Nat} (ha : FO T a) (hb : FO T b) (hta : T.types[a]? = some (.tuple id1))
     (htb : T.types[b]? = some (.tuple id2)) (hnever : T.types[never]? = some (.union []))
-    (hneverfo : FO T never) : MeetOk T a b (meetTuple rec T never id1 id2) := by
+    (hneverfo : FO T never) : MeetOk T a b (meetTuple vr rec T never id1 id2) := by
   obtain ⟨i1, h1, hf1⟩ := ha.tuple hta
   obtain ⟨i2, h2, hf2⟩ := hb.tuple htb
   unfold meetTuple
@@ -242,6 +258,17 @@ theorem meetTuple_ok {rec : Table → Nat → Nat → TRes} (hrec : RecMeet rec)
     · exact h (hn1.symm.trans hn2)
     · exact h (by rw [hr1.length, hr2.length])
   · rename_i hok
+    split
+    · -- labels differ somewhere: no common value
+      rename_i hlab
+      refine MeetOk.never hneverfo (fun v _ ⟨hav, hbv⟩ => ?_)
+      obtain ⟨name, fs, rfl, _, hr1⟩ := (inh_tuple hta h1).mp hav
+      obtain ⟨name', fs', hv', _, hr2⟩ := (inh_tuple htb h2).mp hbv
+      simp only [V.tup.injEq] at hv'
+      obtain ⟨rfl, rfl⟩ := hv'
+      simp only [Bool.and_eq_true] at hlab
+      rw [labelsDiffer_false_of_rel hr1 hr2] at hlab
+      simp at hlab
     have hlen : i1.fields.length = i2.fields.length := by
       by_cases h : i1.fields.length = i2.fields.length
       · exact h
@@ -288,8 +315,8 @@ theorem meetTuple_ok {rec : Table → Nat → Nat → TRes} (hrec : RecMeet rec)
         exact ((hfofs f hf).inh_sub hsub13 [] [] v).mp hv
 
 /-- `intersect_pair` is good on first-order operands -/
-theorem intersectPair_ok (rf : Nat) {rec : Table → Nat → Nat → TRes} (hrec : RecMeet rec) (T : Table)
-    (a b : Nat) (ha : FO T a) (hb : FO T b) : MeetOk T a b (intersectPair rf rec T a b) := by
+theorem intersectPair_ok (vr : Variant) (rf : Nat) {rec : Table → Nat → Nat → TRes} (hrec : RecMeet rec) (T : Table)
+    (a b : Nat) (ha : FO T a) (hb : FO T b) : MeetOk T a b (intersectPair vr rf rec T a b) := by
   unfold intersectPair
   split
   · exact MeetOk.keep_left ha
@@ -304,7 +331,7 @@ theorem intersectPair_ok (rf : Nat) {rec : Table → Nat → Nat → TRes} (hrec
       cases tb <;> simp only [Ty.isFO, Bool.false_eq_true] at hfb
     all_goals first
       | exact MeetOk.keep_left ha0
-      | exact meetTuple_ok hrec ha0 hb0 hta htb hnever hneverfo
+      | exact meetTuple_ok vr hrec ha0 hb0 hta htb hnever hneverfo
       | exact meetFallback_ok rf ha0 hb0 hneverfo
 
 /-! ### the loops of `intersect_types` -/
@@ -489,7 +516,7 @@ theorem intersectLoopA_ok (bvs : List Nat) :
 end
 
 /-- **`intersect_types` never drops a value** (first-order operands, any fuels, any table) -/
-theorem intersect_ok (rf : Nat) : ∀ (fuel : Nat), RecMeet (intersect rf fuel) := by
+theorem intersect_ok (vr : Variant) (rf : Nat) : ∀ (fuel : Nat), RecMeet (intersect vr rf fuel) := by
   intro fuel
   induction fuel with
   | zero => intro T a b _ _ T' r h; simp [intersect] at h
@@ -500,13 +527,13 @@ theorem intersect_ok (rf : Nat) : ∀ (fuel : Nat), RecMeet (intersect rf fuel) 
     obtain ⟨havfo, havsem⟩ := getVariants_sem ha
     obtain ⟨hbvfo, hbvsem⟩ := getVariants_sem hb
     simp only at h
-    cases hl : intersectLoopA (intersectPair rf (intersect rf fuel)) T.never.2 (getVariants T b) T.never.1
+    cases hl : intersectLoopA (intersectPair vr rf (intersect vr rf fuel)) T.never.2 (getVariants T b) T.never.1
         (getVariants T a) with
     | none => simp [hl] at h
     | some pr =>
       obtain ⟨T1, pieces⟩ := pr
       simp only [hl, Option.some.injEq] at h
-      obtain ⟨hsub1, hfo1, hkeep1⟩ := intersectLoopA_ok (fun T a b ha hb => intersectPair_ok rf ih T a b ha hb)
+      obtain ⟨hsub1, hfo1, hkeep1⟩ := intersectLoopA_ok (fun T a b ha hb => intersectPair_ok vr rf ih T a b ha hb)
         T.never.2 (getVariants T b) (getVariants T a) T.never.1 (fun x hx => (havfo x hx).sub hsub0)
         (fun x hx => (hbvfo x hx).sub hsub0) hnever T1 pieces hl
       obtain ⟨hsub2, hfo2⟩ := unionIds_sub_fo T1 pieces hfo1
